@@ -182,6 +182,9 @@ def run_to_end(gen):
     return e.value
 
 
+END = -1          # pseudo line number closing a thread's part of a trace
+
+
 class Deadlock(Exception):
   pass
 
@@ -201,9 +204,13 @@ class Thread(object):
       ev = next(self.gen)
     except StopIteration as e:
       self.done, self.value = True, e.value
+      if trace is not None:
+        trace.append((self.name, END))     # the thread's last statement has now been executed
       return 'done'
     except Exception as e:                 # an exception escaping the thread's code ends the thread
       self.done, self.error = True, e
+      if trace is not None:
+        trace.append((self.name, END))
       return 'done'
     self.blocked = (ev[0] == 'blocked')
     if not self.blocked:
